@@ -264,9 +264,9 @@ theorem free_shift_partial (env : Env σ) (sh : Shift σ) (k : Nat) (h : ShiftEn
 /-! ### the two places where the code does not translate -/
 
 /-- toy instance: a token is its range; source `false` is blank (no tokens), `true` is one token `0..1`;
-    the parser builds a module whose range runs from the first symbol (the marker) to the last token
-    and reports an end-of-input error at the end of the last symbol it has seen. -/
-def toySig : Sig := ⟨Bool, Nat × Nat, Nat × Nat, Nat, Nat, Unit, Unit, Nat, Unit⟩
+    the parser builds a module whose range runs from the first symbol (the marker) to the end of the
+    first token and reports an end-of-input error at the end of the last symbol it has seen. -/
+abbrev toySig : Sig := ⟨Bool, Nat × Nat, Nat × Nat, Nat, Nat, Unit, Unit, Nat, Unit⟩
 
 def toyEnv (blankIsModule : Bool) : Env toySig where
   fullLexer := false
@@ -276,8 +276,8 @@ def toyEnv (blankIsModule : Bool) : Env toySig where
   parseTop := fun _ toks =>
     match toks with
     | [] => .panic
-    | [mk] => if blankIsModule then .ok (.module ⟨(), [], ()⟩) else .err "Eof" mk.2
-    | mk :: t :: rest => .ok (.module ⟨(mk.1, ((t :: rest).getLast!).2), [], ()⟩)
+    | [mk] => if blankIsModule then .ok (.module ⟨(mk.1, mk.2), [], ()⟩) else .err "Eof" mk.2
+    | mk :: t :: _ => .ok (.module ⟨(mk.1, t.2), [], ()⟩)
   view := ⟨fun _ => 0, id, id, id, fun _ => 0, id, id, id, fun _ => none, fun _ => none⟩
 
 /-- variant of `toyEnv` whose module carries no range at all (default features) -/
@@ -342,19 +342,7 @@ theorem toy_shiftEnv (b : Bool) (k : Nat) : ShiftEnv (toyEnv b) toyShift k where
     rcases toks with _ | ⟨a, _ | ⟨t, rest⟩⟩
     · simp [toyEnv, shiftRes]
     · cases b <;> simp [toyEnv, toyShift, shiftRes, shiftMod]
-    · simp only [toyEnv, toyShift, shiftRes, shiftMod, List.map_cons, List.map_nil]
-      congr 4
-      have : ∀ (l : List (Nat × Nat)) (t : Nat × Nat),
-          ((List.map (fun t => (t.1 + k, t.2 + k)) (t :: l)).getLast!).2 = ((t :: l).getLast!).2 + k := by
-        intro l
-        induction l with
-        | nil => intro t; simp [List.getLast!]
-        | cons x xs ih =>
-          intro t
-          have := ih x
-          simp only [List.map_cons] at this ⊢
-          simpa [List.getLast!_cons_cons] using this
-      exact this rest t
+    · simp [toyEnv, toyShift, shiftRes, shiftMod]
   marker := by intro m a b; rfl
   trivia := by intro t; rfl
 
